@@ -105,15 +105,17 @@ Theorem c01_negative_int_orig_refuted :
 Proof. exact c01_negative_int_orig_refuted_lemma. Qed.
 Print Assumptions c01_negative_int_orig_refuted.
 
-(* Finding F02 (conditional on the observed behaviour of the real float conversion, which is
-   modelled by C08, not here): with a rendering that prints 0.995 as 0.1 -- what fast_atof /
-   modp_dtoa at precision 2 do -- an OrderQty built as 0.995 decodes as 0.1. *)
+(* Float finding (conditional on the observed behaviour of the real float conversion, which is
+   modelled by C08, not here): with a rendering that prints 2147483648.0 as 2.147484e+09 -- what
+   fast_atof / modp_dtoa do for |v| >= 2^31 (sprintf "%e", 7 significant digits) -- an OrderQty
+   built as 2147483648.0 decodes as 2.147484e+09 (= 2147484000).  The tie-branch carry of DESIGN
+   F02 (0.995 -> 0.1) was repaired in /repo a6c4c45. *)
 Theorem c01_float_refuted :
   exists c m b m' b2,
-    c_render c ft_float [48; 46; 57; 57; 53] = [48; 46; 49] /\
-    first_elem_val m 73 38 = Some [48; 46; 57; 57; 53] /\
+    c_render c ft_float big_txt = big_out /\
+    first_elem_val m 73 38 = Some big_txt /\
     roundtrip c m = Ok (b, m', b2) /\
-    first_elem_val m' 73 38 = Some [48; 46; 49].
+    first_elem_val m' 73 38 = Some big_out.
 Proof. exact c01_float_refuted_lemma. Qed.
 Print Assumptions c01_float_refuted.
 
